@@ -57,6 +57,22 @@ func staticCalleeRaw(c *ssa.CallCommon) *ssa.Function {
 		if f, ok := v.Fn.(*ssa.Function); ok {
 			return f
 		}
+	case *ssa.Phi:
+		// a function value with a fallback (f := x.hook; if f == nil { f = pkg.Default }): every way resolves to
+		// the same function
+		var one *ssa.Function
+		for _, e := range v.Edges {
+			e = Unwrap(e)
+			f := plainFuncValue(e)
+			if f == nil {
+				f = fieldFuncOf(e)
+			}
+			if f == nil || (one != nil && f != one) {
+				return nil
+			}
+			one = f
+		}
+		return one
 	default:
 		return fieldFuncOf(c.Value)
 	}
@@ -117,6 +133,13 @@ func CallArgs(c *ssa.CallCommon) []ssa.Value {
 		if fi == nil {
 			break
 		}
+		if bodyMovedOut[f] {
+			// the recorded function itself, kept as a thin wrapper around its moved body: the call already has the
+			// recorded arguments in the recorded order
+			if pf, ok := pinnedByName[f.String()]; ok && identityOf(f).Sig == pf.Sig && identityOf(f).Recv == pf.Recv {
+				return args
+			}
+		}
 		mapped := make([]ssa.Value, len(fi.argParam))
 		for j, pi := range fi.argParam {
 			if pi >= 0 && pi < len(args) {
@@ -154,6 +177,9 @@ func callArgsRaw(c *ssa.CallCommon) []ssa.Value {
 		if f, ok := mc.Fn.(*ssa.Function); ok && strings.HasSuffix(f.Name(), "$bound") {
 			return append(append([]ssa.Value{}, mc.Bindings...), c.Args...)
 		}
+	}
+	if mc := boundMethodParam(c.Value); mc != nil {
+		return append(append([]ssa.Value{}, mc.Bindings...), c.Args...)
 	}
 	return c.Args
 }
@@ -229,6 +255,31 @@ func FieldOfLoad(v ssa.Value) (ssa.Value, string, bool) {
 
 // FieldPath: v = load of base.f1.f2...; returns base and the dotted path (handles nested FieldAddr and Field).
 func FieldPath(v ssa.Value) (ssa.Value, string, bool) {
+	return fieldPathD(v, 0)
+}
+
+// fieldPathD: fieldPathRaw, continued through parameters that stand for the one argument every caller passes.
+func fieldPathD(v ssa.Value, depth int) (ssa.Value, string, bool) {
+	if p, ok := v.(*ssa.Parameter); ok && depth < 3 {
+		if b := paramBind[p]; b != nil {
+			return fieldPathD(b, depth+1)
+		}
+	}
+	root, path, ok := fieldPathRaw(v)
+	if !ok {
+		return root, path, ok
+	}
+	if p, isP := root.(*ssa.Parameter); isP && depth < 3 {
+		if b := paramBind[p]; b != nil {
+			if r2, p2, ok2 := fieldPathD(b, depth+1); ok2 {
+				return r2, p2 + "." + path, true
+			}
+		}
+	}
+	return root, path, ok
+}
+
+func fieldPathRaw(v ssa.Value) (ssa.Value, string, bool) {
 	var path []string
 	cur := v
 	if u, ok := cur.(*ssa.UnOp); ok && u.Op == token.MUL {
